@@ -40,6 +40,59 @@ class _Sched:
         self.thread_errors = []
         self.fail_status = False
         self.snap = None
+        # fine-grained interleaving: the keyboard thread executes `step_lines` lines of repository code per loop position
+        self.stepping = False
+        self.step_lines = 1
+        self.budget = 0
+        self.go = threading.Semaphore(0)
+        self.paused = threading.Event()
+        self.step_entry = None
+
+    # ---- tracing of the keyboard thread (installed by the Thread subclass inside that thread only)
+    def trace(self, frame, event, arg):
+        if not frame.f_code.co_filename.startswith(core.REPO):
+            return None
+        return self._local
+
+    def _local(self, frame, event, arg):
+        if event == 'line' and self.stepping:
+            self.budget -= 1
+            if self.budget <= 0:
+                self.paused.set()
+                self.go.acquire()
+                self.budget = self.step_lines
+        return self._local
+
+    def _wait_settled(self):
+        """Until the keyboard thread is paused at a line boundary, blocked in input() again, or has ended."""
+        t = self.thread
+        while t.is_alive() and not self.blocked.is_set() and not self.paused.wait(0.0005):
+            pass
+        if not t.is_alive() or self.blocked.is_set():
+            self._end_stepping()
+
+    def _end_stepping(self):
+        if self.stepping:
+            self.stepping = False
+            if self.step_entry is not None:
+                self.step_entry[4] = bool(self.thread and self.thread.is_alive())
+                self.step_entry = None
+            self.go.release()          # in case the thread is parked at a line boundary
+
+    def tick(self):
+        """One slice for the keyboard thread (called by the generation loop at every position while stepping)."""
+        if not self.stepping:
+            return
+        if self.paused.is_set():
+            self.paused.clear()
+            self.go.release()
+        self._wait_settled()
+
+    def finish_stepping(self):
+        n = 0
+        while self.stepping and n < 100000:
+            self.tick()
+            n += 1
 
     def input(self, *a):
         self.blocked.set()
@@ -50,6 +103,7 @@ class _Sched:
 
     def deliver(self, ev, pos):
         t = self.thread
+        self.finish_stepping()
         snap = self.snap() if self.snap else None
         if t is None or not t.is_alive():
             self.delivered.append([list(pos), ev, 'thread_not_alive', snap, False])
@@ -61,6 +115,18 @@ class _Sched:
             self.delivered.append([list(pos), ev, 'thread_not_alive', snap, False])
             return
         self.blocked.clear()
+        if isinstance(ev, dict) and 'interleaved' in ev:
+            # hand the request over and let the thread work on it a few lines at a time, in step with the generation loop
+            self.step_lines = max(1, int(ev.get('lines', 1)))
+            self.budget = self.step_lines
+            self.paused.clear()
+            self.stepping = True
+            entry = [list(pos), ev, 'ok', snap, True]
+            self.step_entry = entry
+            self.delivered.append(entry)
+            self.q.put(ev['interleaved'])
+            self._wait_settled()
+            return
         if isinstance(ev, dict) and 'status_error' in ev:
             self.fail_status = True          # the next status print fails (e.g. stderr closed)
             self.q.put('')
@@ -75,12 +141,22 @@ class _Sched:
         self.delivered.append([list(pos), ev, 'ok', snap, t.is_alive()])
 
     def at(self, pos):
+        if self.stepping:
+            self.tick()
         ev = self.events.get(pos)
         if ev is not None:
             self.deliver(ev, pos)
 
     def release(self):
         t = self.thread
+        if self.stepping:
+            # the run is over: let the thread finish what it was doing, unthrottled
+            self.stepping = False
+            self.go.release()
+            while t is not None and t.is_alive() and not self.blocked.wait(0.001):
+                pass
+            if self.step_entry is not None:
+                self.step_entry[4] = bool(t and t.is_alive())
         if t is not None and t.is_alive():
             self.q.put(EOFError())
             t.join(2)
@@ -130,6 +206,13 @@ def run_main(root, argv, events=(), fail_stderr_after=None):
         def __init__(s, *a, **k):
             super().__init__(*a, **k)
             sched.thread = s
+
+        def run(s):
+            sys.settrace(sched.trace)
+            try:
+                super().run()
+            finally:
+                sys.settrace(None)
 
     saved = {'threading': cs.threading, 'time': cs.time, 'input': cs.__dict__.get('input', None),
              'next': pq.PcfgQueue.next, 'print_guess': pgm.PcfgGrammar.print_guess, 'file': pg.__file__,
@@ -216,8 +299,10 @@ def run_main(root, argv, events=(), fail_stderr_after=None):
                 pg.main()
             except SystemExit as e:
                 res.error = 'SystemExit(%r)' % (e.code,)
+            finally:
+                res.thread_alive_at_end = bool(sched.thread and sched.thread.is_alive())
+                sched.release()
     finally:
-        res.thread_alive_at_end = bool(sched.thread and sched.thread.is_alive())
         sched.release()
         cs.threading = saved['threading']
         cs.time = saved['time']
